@@ -20,6 +20,18 @@ def showOptI : Option (List Int) → String
 def unflatten (n : Nat) (l : List Int) : List (List Int) :=
   (List.range n).map (fun r => (l.drop (r * n)).take n)
 
+/-- `inverse` iterated k times (the object obtained by k calls of `inverse()`) -/
+def iterInverse (idxs : List Nat) : Nat → Option (List Nat)
+  | 0 => some idxs
+  | k + 1 => match inverse idxs with
+    | .ok l => iterInverse l k
+    | .error _ => none
+
+/-- layout variants of a request are the same request for the model (and for the reference) -/
+def stripLayout (op : String) : String :=
+  if op = "transform_f" || op = "transform_t" then "transform"
+  else if op = "into_strided" then "into" else if op = "invinto_strided" then "invinto" else op
+
 def handle (line : String) : String :=
   match words line with
   | "new" :: rest =>
@@ -31,10 +43,19 @@ def handle (line : String) : String :=
     | some idxs => (match inverse idxs with | .ok l => "ok " ++ joinNats l | .error _ => "panic")
     | none => "bad-op"
   | op :: rest =>
-    let (a, b) := splitBar rest
+    let (a, b0) := splitBar rest
+    -- requests on derived objects carry `| k |` (number of inverse() calls) before the payload
+    let derived := op.startsWith "d" || op = "invk"
+    let (kpart, b) := if derived then splitBar b0 else ([], b0)
+    let op := stripLayout op
     match nats? a, ints? b with
-    | some idxs, some v =>
+    | some idxs0, some v =>
+      match (if derived then iterInverse idxs0 ((kpart.head?.bind String.toNat?).getD 0) else some idxs0) with
+      | none => "panic"
+      | some idxs =>
+      let op := if derived then (if op = "invk" then "indices" else (op.drop 1).toString) else op
       match op with
+      | "indices" => "ok " ++ joinNats idxs
       | "into" => showOptI (applyInto idxs v)
       | "invinto" => showOptI (applyInverseInto idxs v (List.replicate v.length 0))
       | "inplace" => showOptI (inPlace idxs v)
@@ -58,9 +79,17 @@ def specCheck (line : String) : String :=
       | some idxs => if Spec.Perm.expectedNew idxs = ans.trimAscii.toString then "ok"
                      else s!"fail new expected {Spec.Perm.expectedNew idxs}"
       | none => "fail bad-request"
-    | op :: rest =>
-      let (a, b) := splitBar rest
-      match nats? a, ints? b, aw with
+    | op0 :: rest =>
+      let (a, b0) := splitBar rest
+      let derived := op0.startsWith "d" || op0 = "invk"
+      let (kpart, b) := if derived then splitBar b0 else ([], b0)
+      let k := (kpart.head?.bind String.toNat?).getD 0
+      let op1 := stripLayout op0
+      let op := if derived then (if op1 = "invk" then "indices" else (op1.drop 1).toString) else op1
+      -- reference for an object obtained by k calls of inverse(): the permutation itself for even k, otherwise the
+      -- (unique) q with q[p[i]] = i, computed here by searching positions, independently of the model's `inverse`
+      let refInv (p : List Nat) : List Nat := (List.range p.length).map fun j => (p.idxOf j)
+      match (nats? a).map (fun p => if k % 2 = 0 then p else refInv p), ints? b, aw with
       | some idxs, some v, "ok" :: out =>
         match ints? out with
         | none => "fail unparsable-answer"
@@ -68,6 +97,7 @@ def specCheck (line : String) : String :=
           let n := idxs.length
           let good : Bool :=
             match op with
+            | "indices" => o = idxs.map Int.ofNat
             | "inverse" => o.length = n && (List.range n).all (fun i => o[idxs[i]!]! = (i : Int)) &&
                            (List.range n).all (fun i => idxs[(o[i]!).toNat]! = i)
             | "into" | "inplace" | "matvec" => o = Spec.Perm.permuted idxs v
@@ -75,7 +105,7 @@ def specCheck (line : String) : String :=
             | "matrix" => o = ((List.range n).flatMap fun i => (List.range n).map fun j => if j = idxs[i]! then (1:Int) else 0)
             | "transform" => o = ((List.range n).flatMap fun i => (List.range n).map fun j => v[idxs[i]! * n + idxs[j]!]!)
             | _ => false
-          if good then "ok" else s!"fail {op} result-differs-from-reference"
+          if good then "ok" else s!"fail {op0} result-differs-from-reference"
       | some _, some _, _ => s!"fail {op} valid-permutation-operation-did-not-return"
       | _, _, _ => "fail bad-request"
     | _ => "fail bad-request"
